@@ -1,4 +1,5 @@
 import AtreeProofs.Props.C10Hist
+import AtreeProofs.Props.C11W
 import AtreeProofs.World.OkScenario
 /-
   NON-VACUITY of the history theorems (`Props/C10Hist.lean`): the run of `World/OkScenario.lean`
@@ -48,16 +49,18 @@ theorem run16 : t15.2.1.arrInsert A 1 (pl 8) t15.2.2 = .ok t16 := by
 theorem plOkAt (w : World) (p : SlabID) (hT : w.T = 256) (n : Nat) : WValOk w p (maxInlineArr w.T) (pl n) := by
   rw [hT]; exact ⟨⟨(by decide : 1 ≤ 20), n, rfl⟩, (by decide : 20 ≤ maxInlineArr 256)⟩
 
-def trace : List (WOp × WObs) :=
+def trace14 : List (WOp × WObs) :=
   [(.newArr 7, .id t1.1), (.newMap 8 5, .id t2.1), (.newArr 9, .id t3.1), (.newArr 10, .id t4.1),
    (.arrInsert R 0 (.child M 0), .unit), (.mapSet M K1 (.child A 1), .opay (t6.1.map (·.pay))),
    (.arrInsert A 0 (pl 1), .unit), (.arrInsert R 1 (.child B 0), .unit),
    (.arrInsert B 0 (pl 2), .unit), (.arrInsert B 1 (pl 3), .unit), (.arrInsert B 2 (pl 4), .unit),
-   (.arrInsert B 3 (pl 5), .unit), (.arrInsert B 4 (pl 6), .unit), (.arrInsert B 5 (pl 7), .unit),
-   (.arrRemove R 0, .pay t15.1.pay), (.arrInsert A 1 (pl 8), .unit)]
+   (.arrInsert B 3 (pl 5), .unit), (.arrInsert B 4 (pl 6), .unit), (.arrInsert B 5 (pl 7), .unit)]
 
-/-- the run is a history in the sense of `World.Run` -/
-theorem scenario_run : Run OkScenario.D h0 trace h16 := by
+def trace : List (WOp × WObs) :=
+  trace14 ++ [(.arrRemove R 0, .pay t15.1.pay), (.arrInsert A 1 (pl 8), .unit)]
+
+/-- the run of `OkScenario` is a history in the sense of `World.Run` -/
+theorem scenario_run14 : Run OkScenario.D h0 trace14 h14 := by
   have hv5 : WValOk t4.2.1 R (maxInlineArr t4.2.1.T) (.child M 0) :=
     ⟨freshB_live (by decide), unrefB_sound (by decide), not_anc_of_fresh (by decide) (by decide), by decide⟩
   have hv6 : WValOk t5.1 M (maxInlineMapValue t5.1.T K1.size) (.child A 1) :=
@@ -75,9 +78,14 @@ theorem scenario_run : Run OkScenario.D h0 trace h16 := by
     (Run.cons (Step.arrInsert h11 B 3 _ t12.1 t12.2 (Or.inl hsB) (plOkAt _ _ (by decide) 5) run12)
     (Run.cons (Step.arrInsert h12 B 4 _ t13.1 t13.2 (Or.inl hsB) (plOkAt _ _ (by decide) 6) run13)
     (Run.cons (Step.arrInsert h13 B 5 _ t14.1 t14.2 (Or.inl hsB) (plOkAt _ _ (by decide) 7) run14)
+    (Run.nil _))))))))))))))
+
+/-- … and so is its continuation: `M` removed from `R`, then a value inserted through `A` -/
+theorem scenario_run : Run OkScenario.D h0 trace h16 :=
+  scenario_run14.append
     (Run.cons (Step.arrRemove h14 R 0 t15.1 t15.2.1 t15.2.2 (Or.inl hsR) run15)
     (Run.cons (Step.arrInsert h15 A 1 _ t16.1 t16.2 (Or.inl (Or.inl hsA)) (plOkAt _ _ (by decide) 8) run16)
-    (Run.nil _))))))))))))))))
+    (Run.nil _)))
 
 /-- what the final world looks like: `R` holds `B` only; the detached `M` still holds `A`, which holds
     the two values inserted through its handle — the second one AFTER `M` was detached -/
@@ -98,5 +106,33 @@ theorem scenario_history :
 /-- … and it refines the specification on the table of signatures -/
 theorem scenario_refines : SpecRun (fun _ => none) trace (absTab t16.1) :=
   C10Hist.history_refines OkScenario.D 256 1 cx0 (by decide) trace h16 scenario_run
+
+/-! ### C11: the detached `M` and its former parent `R` (non-vacuity of `Props/C11W.lean`) -/
+
+theorem scenario_history14 : WorldOk' OkScenario.D t14.1 t14.2.ctr ∧ HandleOk t14.1 R := by
+  obtain ⟨H, hh⟩ := C10Hist.history_invariant OkScenario.D 256 1 cx0 (by decide) trace14 h14 scenario_run14
+  exact ⟨H, (hh R (Or.inl hsR)).1⟩
+
+/-- `C11.detached_by_arrRemove` applies to the removal of `M` from `R` … -/
+theorem scenario_detached :
+    WorldOk' OkScenario.D t15.2.1 t15.2.2.ctr ∧ DetachedRoot t15.2.1 M ∧ HandleOk t15.2.1 M ∧
+      ¬ Anc t15.2.1 M R :=
+  C11.detached_by_arrRemove OkScenario.D t14.1 R 0 t14.2 t15.1 t15.2.1 t15.2.2 M scenario_history14.1
+    scenario_history14.2 run15 (by decide) (by decide)
+
+/-- … and `C11.detached_arrInsert` to the insertion through the handle of `A`, which is nested in the
+    detached `M`: the former parent `R` is untouched (same table entry: content, sizes, form), `M` is
+    still a detached root, the invariant holds. -/
+theorem scenario_former_parent_untouched :
+    WorldOk' OkScenario.D t16.1 t16.2.ctr ∧ DetachedRoot t16.1 M ∧ t16.1.cont? R = t15.2.1.cont? R := by
+  obtain ⟨H15, hd, _, hnb⟩ := scenario_detached
+  have hA : HandleOk t15.2.1 A :=
+    ((C10Hist.history_invariant OkScenario.D 256 1 cx0 (by decide) _ h15
+      (scenario_run14.append (Run.cons (Step.arrRemove h14 R 0 t15.1 t15.2.1 t15.2.2 (Or.inl hsR) run15)
+        (Run.nil _)))).2 A (Or.inl (Or.inl hsA))).1
+  have hMA : Anc t15.2.1 M A := Anc.step Anc.refl (holds_of_check (by decide))
+  obtain ⟨g1, _, _, g4, g5⟩ := C11.detached_arrInsert OkScenario.D t15.2.1 M A 1 (pl 8) t15.2.2 t16.1 t16.2 H15 hd
+    hMA hA (plOkAt _ _ (by decide) 8) run16
+  exact ⟨g1, g4, g5 R hnb not_moved_plain⟩
 
 end Atree.HistScenario
